@@ -433,12 +433,13 @@ impl Wire for HashMap<String, String> {
         let mut m = HashMap::new();
         for kv in dlist(body)? {
             let (k, v) = kv.split_once('=')?;
-            m.insert(k.to_string(), v.to_string());
+            m.insert(k.replace('\u{2261}', "="), v.to_string());
         }
         Some(m)
     }
     fn enc(&self) -> String {
-        let mut l: Vec<String> = self.iter().map(|(k, v)| format!("{}={}", k, v)).collect();
+        // a '=' inside a KEY is written as U+2261 so that {"B": "x=y"} and {"B=x": "y"} differ on the wire
+        let mut l: Vec<String> = self.iter().map(|(k, v)| format!("{}={}", k.replace('=', "\u{2261}"), v)).collect();
         l.sort();
         format!("l{}", elist(&l))
     }
